@@ -103,7 +103,9 @@ func TestVerifN2NCorr(t *testing.T) {
 				down = -1
 			}
 			var body []byte
-			switch r.Intn(6) {
+			switch r.Intn(7) {
+			case 6:
+				body = []byte(fmt.Sprintf(" \t{\"k\":\"v\",\"pad\":%d}\r\n ", r.Intn(10)))
 			case 0:
 				body = r.Bytes(r.Intn(30))
 			case 1:
@@ -144,6 +146,9 @@ func TestVerifN2NCorr(t *testing.T) {
 			immediate := ""
 			if !m.IsAutoResponseDisabled() {
 				immediate = <-rec.ch
+			} else if err != nil {
+				fail(fmt.Sprintf("message %d: HandleMessage returned an error (%v) with auto-response disabled: nobody will ever answer it", id, err))
+				continue
 			}
 			// what reached which destination
 			pubAddr, nPub := -1, 0
